@@ -310,6 +310,8 @@ theorem not_precedent_of_not_wouldGroup {a : Op} {c : SaExpr} {cop : Op} (hc : C
   | inlist v ty eo => simp [rootOp] at hr
   | inrows r n eo => simp [rootOp] at hr
   | tuple_ es => simp [rootOp] at hr
+  | litcol _ _ => simp [rootOp] at hr
+  | ilikeOperand _ => simp [rootOp] at hr
   | absent => simp [rootOp] at hr
 
 theorem rootAbove_of_rootOp {p : Int} {c : SaExpr} :
@@ -372,6 +374,8 @@ theorem above_of_WG (hprec : ∀ o, o ∈ coreInfix ∨ o ∈ corePrefix → (pr
   | .inlist _ _ _, _, hc, _, _ => by simp [Core] at hc
   | .inrows _ _ _, _, hc, _, _ => by simp [Core] at hc
   | .tuple_ _, _, hc, _, _ => by simp [Core] at hc
+  | .litcol _ _, _, hc, _, _ => by simp [Core] at hc
+  | .ilikeOperand _, _, hc, _, _ => by simp [Core] at hc
   | .absent, _, hc, _, _ => by simp [Core] at hc
 
 theorem aboveList_of_WG (hprec : ∀ o, o ∈ coreInfix ∨ o ∈ corePrefix → (precedence o).isSome = true) :
@@ -477,6 +481,8 @@ theorem tight_render (g : Grammar) (C : Compat g) (d : Dialect) (k : Nat) (p : I
   | .inlist _ _ _, hc, _ => by simp [Core] at hc
   | .inrows _ _ _, hc, _ => by simp [Core] at hc
   | .tuple_ _, hc, _ => by simp [Core] at hc
+  | .litcol _ _, hc, _ => by simp [Core] at hc
+  | .ilikeOperand _, hc, _ => by simp [Core] at hc
   | .absent, hc, _ => by simp [Core] at hc
 
 theorem tight_renderList (g : Grammar) (C : Compat g) (d : Dialect) (k : Nat) (p : Int)
@@ -537,6 +543,8 @@ theorem allExp_render (d : Dialect) (P : Sym → Bool)
   | .inlist _ _ _, hc => by simp [Core] at hc
   | .inrows _ _ _, hc => by simp [Core] at hc
   | .tuple_ _, hc => by simp [Core] at hc
+  | .litcol _ _, hc => by simp [Core] at hc
+  | .ilikeOperand _, hc => by simp [Core] at hc
   | .absent, hc => by simp [Core] at hc
 
 theorem allExp_renderList (d : Dialect) (P : Sym → Bool)
@@ -614,6 +622,8 @@ theorem rootIs_render_of_rootOp (d : Dialect) (op : Op) (c : SaExpr) (hc : Core 
   | inlist v ty eo => simp [rootOp] at hr
   | inrows r n eo => simp [rootOp] at hr
   | tuple_ es => simp [rootOp] at hr
+  | litcol _ _ => simp [rootOp] at hr
+  | ilikeOperand _ => simp [rootOp] at hr
   | absent => simp [rootOp] at hr
 
 theorem precs (g : Grammar) (C : Compat g) :
@@ -798,6 +808,8 @@ theorem ok_render (g : Grammar) (C : Compat g) (hpt : prefixNoTern g) (d : Diale
   | .inlist _ _ _, hc, _ => by simp [Core] at hc
   | .inrows _ _ _, hc, _ => by simp [Core] at hc
   | .tuple_ _, hc, _ => by simp [Core] at hc
+  | .litcol _ _, hc, _ => by simp [Core] at hc
+  | .ilikeOperand _, hc, _ => by simp [Core] at hc
   | .absent, hc, _ => by simp [Core] at hc
 
 theorem ok_renderList (g : Grammar) (C : Compat g) (hpt : prefixNoTern g) (d : Dialect)
@@ -877,6 +889,8 @@ theorem selfGroup_core (a : Op) (x : SaExpr) (hc : Core x = true) (hw : WG x = t
     | inlist v ty eo => simp [Core] at hc
     | inrows r n eo => simp [Core] at hc
     | tuple_ es => simp [Core] at hc
+    | litcol _ _ => simp [Core] at hc
+    | ilikeOperand _ => simp [Core] at hc
     | absent => simp [Core] at hc
 
 theorem coreBin_not_boolCtx {op : Op} (h : coreBin op = true) : boolCtx op = false := by
@@ -919,5 +933,58 @@ theorem constructForList_WG (op : Op) (ty : Ty) (cs : List SaExpr) (hop : coreLi
     Core (constructForList op ty cs) = true ∧ WG (constructForList op ty cs) = true := by
   obtain ⟨c1, w1⟩ := map_selfGroup_core op hb cs hc hw
   simp [constructForList, Core, WG, hop, c1, w1, hlen]
+
+end SaVerif.Expr
+
+
+namespace SaVerif.Expr
+open SaVerif.Expr.Gen SaVerif.Pratt
+
+/-! ### the compile-time rewriting is the identity on the fragment -/
+
+theorem strOpKind_core {op : Op} (h : coreBin op = true) : strOpKind op = none := by
+  cases op <;> simp [coreBin] at h <;> rfl
+
+mutual
+theorem lower_core : ∀ e : SaExpr, Core e = true → lower e = e
+  | .col _ _, _ => rfl
+  | .bind _ _, _ => rfl
+  | .null, _ => rfl
+  | .true_, _ => rfl
+  | .false_, _ => rfl
+  | .grouping e, hc => by
+    simp only [lower]
+    rw [lower_core e (by simpa [Core] using hc)]
+  | .binary op l r n esc ty, hc => by
+    simp only [Core, Bool.and_eq_true] at hc
+    simp only [lower, strOpKind_core hc.1.1.1, lower_core l hc.1.2, lower_core r hc.2]
+  | .unary op e ty, hc => by
+    simp only [Core, Bool.and_eq_true] at hc
+    simp only [lower, lower_core e hc.2]
+  | .clist op cs gr bl ty, hc => by
+    simp only [Core, Bool.and_eq_true] at hc
+    simp only [lower, lowerList_core cs hc.2]
+  | .asbool _ _ _, hc => by simp [Core] at hc
+  | .case_ _ _ _ _, hc => by simp [Core] at hc
+  | .cast _ _, hc => by simp [Core] at hc
+  | .func _ _ _, hc => by simp [Core] at hc
+  | .subq _ _, hc => by simp [Core] at hc
+  | .inlist _ _ _, hc => by simp [Core] at hc
+  | .inrows _ _ _, hc => by simp [Core] at hc
+  | .tuple_ _, hc => by simp [Core] at hc
+  | .litcol _ _, hc => by simp [Core] at hc
+  | .ilikeOperand _, hc => by simp [Core] at hc
+  | .absent, hc => by simp [Core] at hc
+
+theorem lowerList_core : ∀ cs : List SaExpr, CoreList cs = true → lowerList cs = cs
+  | [], _ => rfl
+  | c :: cs, hc => by
+    simp only [CoreList, Bool.and_eq_true] at hc
+    simp only [lowerList, lower_core c hc.1, lowerList_core cs hc.2]
+end
+
+/-- on the fragment, what the compiler emits is `render` of the element itself -/
+theorem emit_core (d : Dialect) (e : SaExpr) (h : Core e = true) : emit d e = render d true e := by
+  simp [emit, lower_core e h]
 
 end SaVerif.Expr
